@@ -443,7 +443,8 @@ class LinalgCheck(Check):
     def configs(self, ctx):
         if ctx.tier == "quick":
             return list(QUICK_CFGS)
-        return ["%s-14-O2" % i for i in ALL_ISAS] + ["sse2-17-O2", "avx2-17-O2", "avx512-17-O2"]
+        # every ISA under C++14 plus one C++17 build (the linalg code has no C++17 branches of its own; the kernels below it do)
+        return ["%s-14-O2" % i for i in ALL_ISAS] + ["avx2-17-O2"]
 
     # ---- plan --------------------------------------------------------------------------------------
     def plan(self, ctx):
